@@ -22,11 +22,11 @@ def gen_cases(run, n, prefix="c"):
     schema = None
     for i in range(n):
         if i % 3 == 0:
-            schema = gen_schema(rng, odd_type_names=(i % 9 == 0))
+            schema = gen_schema(rng, odd_type_names=(i % 6 == 0))
         doc, feats = gen_document(schema, rng)
         other = (i % 2 == 1)
         opts = {"other_variant": other, "skip_none": rng.random() < 0.2}
-        if rng.random() < 0.2:
+        if rng.random() < 0.3:
             opts["normalization"] = "rust"
         c = C.make_case("%s%d" % (prefix, i), schema, doc, rng, options=opts, features=feats)
         vecs, stats = C.resp_vectors(c, rng, n_payloads=4, n_corrupt_bases=run.size(2, 4), other_variant=other)
